@@ -23,6 +23,17 @@ NOTES = {
     "C16_d": "fresh parameters per search: 2-3 searches re-using one ParameterList", "C17_c": "composite returned a fresh dict: one shared dict updated in place",
     "C17_d": "environment never replaced: replaced after the collectors were built", "C18_c": "model always running while decoding: model handed over already complete",
     "C19_c": "no underscore-prefixed ordinary names: added",
+    "C03_f": "environments were installed before they were populated: environments populated first and installed later (`install`)",
+    "C04_e": "guest agents only in C03's runs: also in C04's", "C06_e": "every system was bound to the host model: every third object is bound to another running model",
+    "C06_f": "throw_error only passed as True: also as 1", "C09_e": "grid worlds never wrapped: wrap on for half of the worlds",
+    "C11_e": "integer constants only: list-like constant as long as the number of cells", "C12_e": "query results were never edited: edited and the same query asked again",
+    "C12_f": "integer query points / leeways in grid worlds: quarter-cell queries (`qs = 4`)", "C13_f": "queries only on installed environments: late-installed environments",
+    "C15_e": "no batch without executions: empty value list / zero repetitions x process counts",
+    "C15_f": "fresh parameters per batch: 2-4 batches on one ParameterList with add/remove in between",
+    "C17_f": "no system changed the system set in the collector runs: a one-shot system unregisters itself directly before the collectors",
+    "C18_e": "environment never replaced while decoding: the first group's pre hook installs a new environment",
+    "C19_f": "ASCII names only: names outside NFKC normal form", "C20_e": "all classes defined before any tag change: class L defined mid-history",
+    "C20_f": "unrelated component types only: derived type R(P)",
 }
 
 
@@ -42,13 +53,13 @@ def main():
             fv = "detected"
         rows.append(f"| {name} | {m['what'][:170].replace('|', '/')} | {m['needs'][:150].replace('|', '/')} | {det} | {fv} |")
     head = ("\n### 11.5 Independently seeded changes (`/verif/seeded/<id>/`)\n\n"
-            "Eighty changes were produced in two rounds by fresh sub-agents that saw only the text of one property and a scratch worktree "
-            "(two per property and round; ids `_a`,`_b` = round 1, `_c`,`_d` = round 2, whose agents were told what round 1 had produced and "
-            "asked for something different). Each passes the 110 tests, and its demonstration fails with the change and passes without it "
+            "One hundred and twenty changes were produced in three rounds by fresh sub-agents that saw only the text of one property and a scratch worktree "
+            "(two per property and round; ids `_a`,`_b` = round 1, `_c`,`_d` = round 2, `_e`,`_f` = round 3; the agents of later rounds were told "
+            "what the earlier rounds had produced and asked for something different). Each passes the 110 tests, and its demonstration fails with the change and passes without it "
             "(re-confirmed by `tools/seedcheck.py import`). `tools/seedcheck.py run` applies a patch to `/repo`, runs the property's quick check "
             "and undoes it (`git checkout -- .`); `run --scratch` does the same on a scratch copy (`VERIF_REPO`) so that runs can go in parallel. "
-            "**All eighty are detected by the quick check of their property** (`result_quick.json`, current checks). "
-            "The first version of the checks missed 8 of round 1 and 17 of round 2 (`result_first.json`); each miss was a gap in what the *drivers* "
+            "**All of them are detected by the quick check of their property** (`result_quick.json`, current checks). "
+            "The checks as they stood when a round arrived missed 8 of round 1, 17 of round 2 and 16 of round 3 (`result_first.json`); each miss was a gap in what the *drivers* "
             "exercised, closed as noted - the specifications' obligations were not changed for any of them and no check was loosened. "
             "Two patches (`C05_b`, `C05_c`) were re-based onto the hook commit (`patch_before_hook.diff` keeps the original).\n\n"
             "| id | change | needs | detected by | first version of the checks |\n|---|---|---|---|---|\n")
